@@ -749,6 +749,18 @@ class FuncAnalysis:
                 break
         return t
 
+    def _reduce_getattr(self, t: Any) -> Any:
+        """getattr(x, <name>) whose name became a known constant once a parameter was bound: x.<name>"""
+        if not isinstance(t, tuple) or not t:
+            return t
+        r = tuple(self._reduce_getattr(x) for x in t)
+        if len(r) in (4, 5) and r[0] == "app" and r[1] == ("global", "builtins.getattr") and len(r[2]) in (2, 3) and not r[3]:
+            key = self._global_const(r[2][1]) if isinstance(r[2][1], tuple) and r[2][1] else ("top",)
+            if key[0] == "const" and isinstance(key[1], str):
+                got = ("attr", r[2][0], key[1])
+                return got if len(r[2]) == 2 else phi([got, r[2][2]])
+        return r
+
     def _apply_stores(self, t: Term, name: str, d: "Def", at: CNode, depth: int) -> Term:
         stores = self.attr_stores(name, d, at, depth)
         if not stores:
@@ -1288,6 +1300,8 @@ class FuncAnalysis:
         for p in callee.params:
             binding.setdefault(("param", p), ("top", f"unbound parameter {p} of {callee.name}"))
         out = subst(rt, binding)
+        if any(isinstance(v, tuple) and v and v[0] in ("global", "const") for v in binding.values()):
+            out = self._reduce_getattr(out)
         if any(isinstance(v, tuple) and v and v[0] == "new" for v in binding.values()):
             self.model_property_alias("")
             out = _reduce_fields(out, FuncAnalysis._prop_alias_cache.get(id(self.model), {}))
